@@ -201,7 +201,9 @@ class Tree:
     def _register(self, node: Node) -> None:
         assert node._tree is self
         # node._tree = self
-        assert node._node_id and node._node_id not in self._node_by_id, f"{node}"
+        if not node._node_id or node._node_id in self._node_by_id:
+            # Not an `assert`: a duplicate key must also be refused with `python -O`
+            raise ValueError(f"node_id is missing or already in use: {node}")
         self._node_by_id[node._node_id] = node
         try:
             clone_list = self._nodes_by_data_id[node._data_id]  # may raise KeyError
